@@ -11,7 +11,7 @@ All theorems quantify over arbitrary operation histories `ops`, arbitrary values
 environment `env` (zlib, clock, contents of the font objects). -/
 namespace C13
 open Canvas.C13 C13L
-open Canvas.C13.P (parseVal norm size)
+open Canvas.C13.P (parseVal norm size decShape)
 
 /-- `pos` is the number of bytes written, after any history. -/
 theorem pos_tracks_length (env : Env) (ops : List Op) (s : St) (h : run env {} ops = some s) :
@@ -163,6 +163,16 @@ theorem canonical_order_ok (tE sE : Option Entry) (rest : List Entry)
     (hn : noTS rest = true) (hsrt : sortedKeys rest = true) :
     canonOK (optList tE ++ optList sE ++ rest) = true :=
   canonOK_of_canonical tE sE rest ht hs hn hsrt
+
+/-- The number hypothesis inside `wf` holds for everything a decimal printer emits for a finite
+number: optional minus sign, integer digits, optional point and fraction digits, at least one digit.
+(That the real `dec` prints exactly such texts for finite floats is checked on the real code by the
+NUM correspondence lines; NaN/Inf — the repaired defects 7e81ff7, 088add3 — are not of this shape.) -/
+theorem printed_number_wf (neg : Bool) (ip fr : Bytes) (hip : ip.all Canvas.C13.Rd.isDigit = true)
+    (hfr : fr.all Canvas.C13.Rd.isDigit = true) (hne : ip ≠ [] ∨ fr ≠ []) :
+    wf (.num (decShape neg ip fr)) = true := by
+  simp only [wf]
+  exact decShape_numTok neg ip fr hip hfr hne
 
 /-- non-vacuity: a nested page-like dictionary satisfies the hypotheses -/
 example : wf (.dict [(asc "Type", .name (asc "Page")), (asc "Subtype", .name (asc "X")),
